@@ -55,8 +55,9 @@ def render(facts: dict) -> str:
 def write(facts: dict) -> bool:
     """Write Generated.lean / generated.json if changed; return True if something changed."""
     changed = False
-    for path, text in ((os.path.join(VERIF, "lean", "Rbacx", "Generated.lean"), render(facts)),
-                       (os.path.join(VERIF, "lean", "generated.json"), json.dumps(facts, indent=1, sort_keys=True, default=str) + "\n")):
+    lean = os.environ.get("VERIF_LEAN_DIR") or os.path.join(VERIF, "lean")
+    for path, text in ((os.path.join(lean, "Rbacx", "Generated.lean"), render(facts)),
+                       (os.path.join(lean, "generated.json"), json.dumps(facts, indent=1, sort_keys=True, default=str) + "\n")):
         old = open(path, encoding="utf-8").read() if os.path.exists(path) else None
         if old != text:
             with open(path, "w", encoding="utf-8") as f:
